@@ -211,7 +211,9 @@ def stepC20 (d : DSt) (op : String) (got : String) : StepResult DSt :=
       let doExpress (label nameT cbpT lifeT resOk : String) (covx : List String) : StepResult DSt :=
         match Name.ofText nameT, optNat lifeT with
         | some final, some life =>
-          let cbp := cbpT == "1"
+          -- tokens 2 / 3: MustBeFresh set as well; it plays no part in what satisfies a pending Interest
+          let cbp := cbpT == "1" || cbpT == "3"
+          let covx := covx ++ (if cbpT == "2" || cbpT == "3" then ["express-mustbefresh"] else [])
           let (m2, o) := stepM d.pinned m1 (.express final cbp life)
           match o with
           | .expressed id =>
@@ -322,6 +324,32 @@ def stepC20 (d : DSt) (op : String) (got : String) : StepResult DSt :=
         | _, _ => mk d1 s!"ok:{baseT}/2:<32 bytes>" [] [] ["express-params-bad"]
       | ["data", nameT, digT, _variant] => doData nameT digT "ok" (wrapCov "w0")
       | ["data", nameT, digT, _variant, w] => doData nameT digT "ok" (wrapCov w)
+      | ["datax", nameT, digT, _variant, w, label, xnameT, cbpT, lifeT] =>
+        -- a Data arrival during which (inside the first callback it triggers) another goroutine
+        -- expresses Interest `label`: the engine serialises the two, so the history is "Data, then
+        -- Express" and the new Interest is pending afterwards — never lost, never resolved by this Data
+        match Name.ofText nameT, bytesOfHex digT, Name.ofText xnameT, optNat lifeT with
+        | some name, some dig, some final, some life =>
+          let (m2, o) := stepM d.pinned m1 (.data name dig)
+          let cbs := match o with | .cbs l => l | _ => []
+          let (sp2, f2) := if isCrash got then (sp1, []) else specCb sp1 gotCb (some (name, dig)) none
+          let missing := sp1.ints.filter fun si =>
+            !si.resolved && Spec.satisfies si.i name dig && !(gotCb.any fun e => e.startsWith (si.label ++ ":"))
+          let f3 : List SpecFail := if isCrash got then [] else missing.map fun si =>
+            ⟨"resolves-all", (if si.i.node == name then "same-name" else "prefix"),
+             s!"Data {nameT} satisfies pending {si.label} ({Name.toText si.i.final} cbp={si.i.cbp}) but its callback was not invoked"⟩
+          let cbp := cbpT == "1" || cbpT == "3"
+          let (m3, o3) := stepM d.pinned m2 (.express final cbp life)
+          match o3 with
+          | .expressed id =>
+            let (xdig, node) := splitDigest final
+            let spInts := if gotRes == "ok" then
+                sp2.ints ++ [{ label := label, i := ⟨node, final, cbp, xdig, t, life.getD defaultLife⟩ }]
+              else sp2.ints
+            mk { d1 with m := m3, labels := d1.labels ++ [(id, label)], sp := { sp2 with ints := spInts } } "ok" cbs (f2 ++ f3)
+              (["datax", if cbs.isEmpty then "datax-no-callback" else "datax-express-during-callback"] ++ wrapCov w) (!cbs.isEmpty)
+          | _ => mk { d1 with m := m3, sp := sp2 } "err" cbs (f2 ++ f3) ["datax-express-err"]
+        | _, _, _, _ => bad d
       | ["datafor", label, _variant, w] =>
         -- Data named exactly like the Interest `label` was named on the wire; name and digest come from the harness
         match finalOf label with
